@@ -7,9 +7,12 @@ from gen.pools import fbits
 from gen.randgen import *
 
 PROPERTY = "C13"
-PROPS_VO = "Props/C13"
+PROPS_VO = ["Props/C13", "Props/FloatFacts"]
 AXIOMS_OK = []
+AXIOMS_OK_BY_FILE = {"Props/FloatFacts": vcheck.FLOCQ_AXIOMS}
+THEOREM_FILTER = {"Props/FloatFacts": r"FF_(C13_|fo_nbits|nbits_sane)"}
 ASSUMPTIONS = [
+    "nbits_sane is a THEOREM for the Flocq binary32 instance for every i32 size and every sparsity accepted by BOOLVECTOR.RAND (Props/FloatFacts.v: FF_nbits_sane, FF_C13_bool_vec_*_flocq), depending on the 4 classical axioms of Coq's real numbers through Flocq",
     "the random number generator is an oracle (tape): integer gen_range answers inside [lo,hi) and panics on an empty range; f32 gen_range answers lo <= x < hi and panics when not lo < hi or when hi - lo is not finite; rng.gen::<f32>() is in [0,1); Normal::sample is any f32; Normal::new fails exactly on a non-finite deviation (rand 0.8.8 / rand_distr 0.4.3 sources read; their contracts are trusted). Theorems hold for EVERY tape",
     "FloatOps is an interface without laws: 0 <= nbits <= size (the share of non-default bits is at most 1/2 in IEEE arithmetic) is a hypothesis (nbits_sane) of the BOOLVECTOR.RAND theorems; the checker evaluates it with the Flocq binary32 instance on every case, and Suites/SRand.v sweeps it over the grid",
     "the rejection loop is modelled with fuel; when a (finite) tape is exhausted before a default position was offered the model continues with the outcome 'first default position' - some continuation of the generator's output; an RNG that never offers a default position makes the real loop run forever: excluded with probability 1, not by proof",
